@@ -39,9 +39,23 @@ class OnePreemption:
         self.other_native = set()
         self.finished_native = set()
         self.skip_native = set()  # kernel threads that do not belong to the run (harness watchers)
+        self.waiting_native = set()  # plan functions in a timed harness wait (they are waiting for TA): not "the rest of the process" for the probes
         self.codes = [c for c in perturb.discover_codes() if c.co_filename.endswith(("run_function_on_graph.py", "scheduler.py", "queue.py"))]
         self.pn = [c for c in self.codes if c.co_name == "process_node"]
         self.active = False
+
+    def harness_wait(self, cond, timeout):
+        """A plan function waits (bounded) for a condition on this object; while it does, the quiescence probes ignore its thread."""
+        me = threading.get_native_id()
+        with self.cv:
+            self.waiting_native.add(me)
+            try:
+                self.cv.wait_for(cond, timeout)
+            finally:
+                self.waiting_native.discard(me)
+
+    def bookkeeping_over(self):
+        return self.ta_done.is_set()
 
     # -- called by the harness from inside call `a`, just before it returns (on TA)
     def arm(self):
@@ -71,7 +85,6 @@ class OnePreemption:
                 import time as _t
 
                 me = threading.get_native_id()
-                skip = self.skip_native | {me}
                 end = _t.monotonic() + self.hold_timeout
                 stable = 0
                 prev = None
@@ -89,6 +102,7 @@ class OnePreemption:
                         tids = [int(t) for t in _os.listdir("/proc/self/task")]
                     except OSError:
                         tids = []
+                    skip = self.skip_native | {me} | self.waiting_native
                     for t in tids:
                         if t in skip:
                             continue
@@ -226,6 +240,7 @@ def run_once(shape, a_index, k, W_extra, sched, seed, hold="quiescent"):
     from . import plainrun
 
     ir, P, slow = build_ir(shape)
+    joins = {n.id for n in ir.nodes if n.kind == "call" and n.fname == "join"}
     a = P[a_index]
     OP = OnePreemption(k, len(P) - 1, hold=hold)
     holder = {}
@@ -243,7 +258,13 @@ def run_once(shape, a_index, k, W_extra, sched, seed, hold="quiescent"):
         elif nid in P:
             OP.wait_for_ta()
         elif nid in slow:
-            time.sleep(0.01)
+            # the slow input of a downstream join outlasts the bookkeeping under test, so that a join released twice shows as an ORDER violation
+            OP.harness_wait(OP.bookkeeping_over, 3.0)
+            time.sleep(0.03)
+        elif nid in joins:
+            # a join that was released is still executing when the bookkeeping under test ends: a second release then runs it a second time
+            # (once it has returned, the engine has dropped its bound call and a second release only fails)
+            OP.harness_wait(OP.bookkeeping_over, 0.5)
 
     def post(nid, att, res):
         if nid == a:
@@ -345,7 +366,9 @@ class TwoPreemptions(OnePreemption):
         self.held_at_b = None
         self.hold_b_expired = False
         self.positions_b = []
-        self.waiting_native = set()
+
+    def bookkeeping_over(self):
+        return self.ta_done.is_set() and (self.tb_done.is_set() or not self.ta_paused.is_set())
 
     def arm_b(self):
         self.tb_tid = threading.get_ident()
@@ -451,6 +474,7 @@ def run_twice_preempted(shape, a_index, b_index, k1, k2, W_extra, sched, seed):
     from . import plainrun
 
     ir, P, slow = build_ir(shape)
+    joins = {n.id for n in ir.nodes if n.kind == "call" and n.fname == "join"}
     a, b = P[a_index], P[b_index]
     OP = TwoPreemptions(k1, k2, len(P) - 1)
     holder = {}
@@ -470,16 +494,10 @@ def run_twice_preempted(shape, a_index, b_index, k1, k2, W_extra, sched, seed):
         elif nid in P:
             OP.wait_for_tb()
         elif nid in slow:
-            # the slow input of the downstream join outlasts both workers' bookkeeping (holds take milliseconds), so that a join released
-            # twice becomes an ordering violation and not only a double execution
-            me = threading.get_native_id()
-            with OP.cv:
-                OP.waiting_native.add(me)  # a timed harness wait must not keep the quiescence probes from succeeding
-                try:
-                    OP.cv.wait_for(lambda: OP.ta_done.is_set() and (OP.tb_done.is_set() or not OP.ta_paused.is_set()), 3.0)
-                finally:
-                    OP.waiting_native.discard(me)
+            OP.harness_wait(OP.bookkeeping_over, 3.0)
             time.sleep(0.03)
+        elif nid in joins:
+            OP.harness_wait(OP.bookkeeping_over, 0.5)
 
     def post(nid, att, res):
         if nid == a:
